@@ -7,15 +7,16 @@ LEVEL_TEXT = ("bounded symbolic model checking of the real Go code: the anchored
 NOTE_COMMON = ("trusted: go/ssa lowering, the gosym interpreter and its Int-with-wrap encoding, the theory summaries of math.Int/LegacyDec/sdk.Coins/big.Int/time "
   "(cross-checked each run by replaying solver-chosen traces through the native build), z3; ")
 checks = {
+ "C08": dict(note="decides: LockedCoins(t) = max(original - unlockedVested - trackedDelegated, unvested) component-wise for arbitrary schedules/delegations/time; after a clawback the kept coins unlock exactly as the original lockup allows (so LockedCoins stays right); the staking wrapper lets a delegation / self-bond of a clawback vesting account through only if amount <= max(balance - unvested, 0). NOT decided here: that the SDK bank keeper consults LockedCoins on every debit path (assumed SDK contract), the eth ante pre-check and EVM debit path", design="6/C08"),
  "C12": dict(note="decides: one arbitrary DAO message from an arbitrary invariant-satisfying ledger (sum of shares = recorded total = module funds; holder and denom indexes exact) re-establishes the invariant, credits the depositor exactly, moves exactly the stated amount owner->recipient (incl. owner = recipient) and touches nobody else; 2 accounts x 2 denoms quick, 3 x 2 thorough", design="6/C12"),
  "C11": dict(note="decides (pure schedule algebra): SubtractAmountFromPeriods splits every period exactly (decreased+moved=original, nothing negative, other denoms untouched, moved total = requested, lengths kept) and the liquid-token schedule composed as in Liquidate has every release event at the absolute time of the original lockup event (nothing unlocks earlier); <=3 periods quick / <=5 thorough, amounts < 2^100. Keeper-level escrow/denom-table bookkeeping is outside this claim", design="6/C11"),
  "C13": dict(note="decides: one EndBlocker step from an arbitrary state mints round(bonded x coefficient% x elapsed/year) (18-decimal fixed point, leap years) into the fee collector, caps at max supply with auto-disable, mints nothing on first block / while disabled / on the first block after re-activation (two-step history); values < 2^100, years 1970..2399 (sampled in quick, all in thorough)", design="6/C13"),
  "C17": dict(note="decides: CalculateBaseFee = the statement's EIP-1559 formula incl. nil cases; unchanged at g=T, +>=1 above, >= floor(minGasPrice) and <= base below; monotone in g for base >= floor(minGasPrice); BeginBlock stores exactly it; EndBlock figure = max(floor(gasWanted*mult), gasUsed); single block, all integer values symbolic (base < 2^128); target T >= 1 assumed", design="6/C17"),
- "C09": dict(note="decides: ReadSchedule/ReadPastPeriodCount = step function, monotone, zero up to start, total from end; DisjunctPeriods = union (sum after both started); ConjunctPeriods = pointwise minimum; bounds: <=3 periods (quick) / <=5 (thorough), <=2 denoms, times < 2^61, amounts < 2^128", design="6/C09"),
+ "C09": dict(note="decides: ReadSchedule/ReadPastPeriodCount = step function, monotone, zero up to start, total from end; DisjunctPeriods = union (sum after both started); ConjunctPeriods = pointwise minimum; account level: vested+unvested = locked+unlocked = grant, never negative; ComputeClawback returns exactly unvested, keeps vested under the original lockup, leaves a consistent account accepted by its own Validate() (first lockup period of positive length). NOT decided: keeper-level funder check / bank transfer of the clawback (msg server); bounds: <=3 periods (quick) / <=5 (thorough), <=2 denoms, times < 2^61, amounts < 2^128", design="6/C09"),
 }
 na = {
 }
-pending = "C01 C02 C03 C04 C05 C06 C07 C08 C10 C14 C16 C18 C19".split()
+pending = "C01 C02 C03 C04 C05 C06 C07 C10 C14 C16 C18 C19".split()
 m = {
  "version": 1,
  "setup_cmd": "cd /verif/engine && GOFLAGS=-mod=mod GOPROXY=off GOSUMDB=off GOTOOLCHAIN=local go build -o /verif/bin/vcheck ./cmd/vcheck",
